@@ -117,6 +117,21 @@ CHECKS.update({
    design_ref="DESIGN.md §3 C15"),
 })
 
+CHECKS.update({
+ "C12": dict(
+   category="exploration",
+   text="L0: the real extract_client_random on every prefix (sampled + boundaries for long flights) and on byte mutations of first flights from a real rustls client and of synthetic ClientHellos (padding, post-quantum-sized key shares up to > 16 KiB, legacy versions, session ids, hello fragmented across records, trailing records): result must be the exact bytes 11..43, 'need more' while the first record is incomplete, or absent - never another value. L1: real loopback sockets through the real TlsListener::listen and Core::on_new_tls_connection with a real rustls client whose first flight is written in seeded segments (0-3 cuts or byte-at-a-time, gaps 0/2 ms): extracted random == what the client wrote, SNI/ALPN intact, right certificate, and a working HTTP exchange afterwards (transparency of the peek); synthetic large hellos written raw in segments.",
+   note="Trusted: rustls as the real TLS stack on both sides; the synthetic ClientHello builder. QUIC client random not exercised.",
+   technique="runtime monitoring: prefix/segmentation sweep of the real extractor + end-to-end handshakes over segmented loopback writes",
+   design_ref="DESIGN.md §3 C12"),
+ "C13": dict(
+   category="exploration",
+   text="Credentials files with a hostile pool of user names/passwords (quotes, backslashes, escapes, apostrophes, padding, control characters, Unicode, 600 bytes, seeded strings over a hostile alphabet) in every TOML string form, in both roles: Settings::get_clients vs the `toml` crate's reading of the same file, RegistryBasedAuthenticator verdict for base64(user:pass), exported client configuration re-parsed; malformed credentials files (missing keys, wrong types, duplicates); sub-process round trips of the real binaries built from the working tree (setup_wizard -m non-interactive -> trusttunnel_endpoint -c) and the start-up matrix (credentials x listen-address class x listen protocols x reverse-proxy section x duplicate/garbage/missing host files) through toml::from_str + Core::new.",
+   note="Trusted: the `toml` crate as the conforming TOML reader; cargo builds the two binaries into harness/target/repo-bins. IPv4-mapped loopback listen address and a key file used as certificate are EITHER.",
+   technique="runtime monitoring: differential reading (endpoint vs conforming TOML reader) + sub-process round trips of the real binaries",
+   design_ref="DESIGN.md §3 C13"),
+})
+
 NOT_YET = "check not built yet in this session (designed in DESIGN.md §3; harness work in progress)"
 
 def main():
@@ -141,7 +156,7 @@ def main():
         })
     m = {
         "version": 1,
-        "setup_cmd": "cd harness && CARGO_NET_OFFLINE=true cargo build --release --offline",
+        "setup_cmd": "(cd harness && CARGO_NET_OFFLINE=true cargo build --release --offline) && (cd /repo && CARGO_NET_OFFLINE=true cargo build --release --offline -p trusttunnel_endpoint -p trusttunnel_endpoint_tools --target-dir /verif/harness/target/repo-bins)",
         "hooks": {
             "guard": "cargo feature verif_hooks of crate trusttunnel (lib/Cargo.toml)",
             "enable": "the harness crate /verif/harness depends on /repo/lib by path with features=[\"verif_hooks\"]; ./check rebuilds it from /repo's working tree",
